@@ -109,6 +109,18 @@ mut("c03-square-delete-one-axis", "C03", "pybrops/core/mat/DenseSquareTaxaMatrix
 mut("c03-sort-drops-mask", "C03", VM, "            self._vrnt_mask = self._vrnt_mask[indices]      # reorder variant mask array", "            pass", "reorder_vrnt leaves the variant mask in the old order")
 mut("c03-concat-label-order", "C03", TM, "        taxa_ls = [m.taxa for m in mats]", "        taxa_ls = [m.taxa for m in mats][::-1]", "concat_taxa concatenates taxa names in reverse matrix order", count=0)
 
+# ---------------------------------------------------------------- C15
+BV = "pybrops/popgen/bvmat/DenseBreedingValueMatrix.py"
+mut("c15-unscale-no-location", "C15", BV, "        return (self._scale * self._mat) + self._location", "        return (self._scale * self._mat) + (self._location if self.ntaxa != 3 else 0.0)", "unscale drops the location for 3-taxon matrices")
+mut("c15-nanmean-to-mean", "C15", BV, "        location = numpy.nanmean(mat, axis = 0)", "        location = numpy.mean(mat, axis = 0)", "NaN-unsafe mean in from_numpy: one missing value wipes the trait")
+mut("c15-zero-scale-kept", "C15", BV, "        scale[scale == 0.0] = 1.0", "        scale[scale == 0.0] = 1.0 if len(mat) != 2 else 0.0", "constant columns of 2-taxon matrices keep scale 0 (division by zero)")
+mut("c15-tmin-is-tmax", "C15", BV, "        out = self._mat.min(axis = self.taxa_axis)   # get minimum", "        out = self._mat.min(axis = self.taxa_axis) if self.ntrait != 2 else self._mat.max(axis = self.taxa_axis)", "tmin returns the maximum for two-trait matrices")
+mut("c15-tmax-mutates", "C15", BV, "        out = self._mat.max(axis = self.taxa_axis)   # get maximum", "        out = self._mat.max(axis = self.taxa_axis) if self.ntaxa != 1 else self._mat[0]", "tmax(unscale=True) scales a view of the matrix in place for single-taxon matrices")
+mut("c15-revert-tstd", "C15", BV, "        out = self._mat.std(axis = self.taxa_axis)   # get standard deviation\r\n        if unscale:\r\n            out *= self._scale", "        out = self._scale if unscale else self._mat.std(axis = self.taxa_axis)", "reverts the tstd fix")
+mut("c15-revert-append", "C15", BV, "        self._assign_taxa_op_result(self.adjoin_taxa(values, taxa = taxa, taxa_grp = taxa_grp, **kwargs))", "        super(DenseBreedingValueMatrix, self).append_taxa(values, taxa = taxa, taxa_grp = taxa_grp, **kwargs)", "reverts the append_taxa fix")
+mut("c15-trange-not-scaled", "C15", BV, "        out = numpy.ptp(self._mat, axis = self.taxa_axis)    # get range\r\n        if unscale:", "        out = numpy.ptp(self._mat, axis = self.taxa_axis)    # get range\r\n        if unscale and self.ntaxa != 4:", "trange(unscale=True) left on the stored scale for 4 taxa")
+mut("c15-delete-restandardise-bug", "C15", BV, "        mat = self.unscale()\r\n", "        mat = self.unscale() if self.ntaxa != 5 else self.mat\r\n", "a non-mutating taxa op re-standardises the already scaled values for 5 taxa", count=0)
+
 
 def run_one(m, runs, tier_args=()):
     scratch = "/dev/shm/pybrops-mut-%s-%d" % (m["id"], os.getpid())
@@ -117,10 +129,10 @@ def run_one(m, runs, tier_args=()):
     try:
         shutil.copytree("/repo/pybrops", os.path.join(scratch, "pybrops"))
         path = os.path.join(scratch, m["file"])
-        src = open(path).read()
+        src = open(path, newline='').read()
         if src.count(m["old"]) < 1 or (m["count"] and src.count(m["old"]) != m["count"]):
             return "BAD-MUTANT (old text occurs %d times)" % src.count(m["old"]), ""
-        open(path, "w").write(src.replace(m["old"], m["new"]))
+        open(path, "w", newline="").write(src.replace(m["old"], m["new"]))
         env = dict(os.environ, VERIF_REPO=scratch)
         cmd = [os.path.join(VERIF, "check"), m["prop"], "--no-evidence"] + (["--runs", str(runs)] if runs else []) + list(tier_args)
         p = subprocess.run(cmd, cwd=VERIF, env=env, capture_output=True, text=True, timeout=3600)
